@@ -216,7 +216,7 @@ func cmdCheck(args []string) int {
 			items = append(items, &checkItem{Name: f + "/contract", Kind: "missing", Text: "contract of function is missing", Status: "missing", Func: f})
 			continue
 		}
-		r := VerifyFunc(pr, eff, fi, VerifyOpts{NoSafety: !safetySet[f]})
+		r := VerifyFunc(pr, eff, fi, VerifyOpts{NoSafety: !safetySet[f], View: *prop})
 		if r.Trusted != "" {
 			fnClass[f] = "A"
 			assumedSet[f+" (trusted: "+r.Trusted+")"] = true
